@@ -149,7 +149,7 @@ def abiScore (env : TagEnv) (abi : Option Str) : Nat :=
 def platScoreLoop (env : TagEnv) : List Str → Int → Int
   | [], s => s
   | p :: ps, s =>
-    if p = "any".toList then platScoreLoop env ps 0
+    if p = "any".toList then platScoreLoop env ps (max s 0)      -- a maximum since the D45 repair (it was `plat_score = 0`)
     else
       let q := aliasOf env p
       match parseManylinux q with
